@@ -97,7 +97,7 @@ def numlit(v):
 #   ("if", cond, t1, t2)
 #   ("pure", expr)
 #   ("err", errexpr)
-#   ("for", xs, init, lampat, x, bodyterm)   forM xs init (fun lampat x => do bodyterm)   -- only inside letb
+#   ("for", xs, init, lampat, x, bodyterm)   pyFor xs init (fun lampat x => do bodyterm)   -- only inside letb
 
 
 def pp_term(t, ind):
@@ -128,7 +128,7 @@ def pp_block(t, ind, close):
         lines = [f"{sp}if {t[1]} then do"] + pp_term(t[2], ind + 2) + [f"{sp}else do"] + pp_term(t[3], ind + 2)
     elif t[0] == "for":
         _, xs, init, lampat, x, body = t
-        lines = [f"{sp}forM {xs} {init} (fun {lampat} {x} => do"] + pp_term(body, ind + 4)
+        lines = [f"{sp}pyFor {xs} {init} (fun {lampat} {x} => do"] + pp_term(body, ind + 4)
         lines[-1] += ")"
     else:
         lines = [f"{sp}do"] + pp_term(t, ind + 2)
@@ -306,6 +306,7 @@ class Module:
             out.append(f"import VelaVerif.Gen.{d}")
         out.append("/-! Translated definitions (see design.d/Translator.md).  Arguments are `Num`s: tagged Python / NumPy")
         out.append("    integers; the theorems in `Props/*Src.lean` instantiate them with Python ints (`Num.py`). -/")
+        out.append("set_option linter.unusedVariables false")
         out.append(f"namespace {self.namespace}")
         out.append("open VelaVerif.PyRt")
         out.append("")
@@ -1084,6 +1085,10 @@ class FnTranslator:
             pre += p
             first = False
             if isinstance(op, (ast.Is, ast.IsNot)):
+                # `x is None` / `x is not None` for a value whose shape says it is a number / list / tuple:
+                # the entry assumption "parameters have their declared shapes" decides the test
+                if isinstance(rhs, ast.Constant) and rhs.value is None and left[2] != U and len(node.ops) == 1:
+                    return pre, ("lit", "false" if isinstance(op, ast.Is) else "true", B)
                 self.fail(node, "`is` comparison")
             if isinstance(op, (ast.In, ast.NotIn)):
                 self.fail(node, "`in` test")
